@@ -23,11 +23,18 @@ pub fn install() {
     static ONCE: Once = Once::new();
     ONCE.call_once(|| {
         rip_kernel::verif::set(std::sync::Arc::new(|point: &str, ctx: &str| {
-            if point != "scan.iter" {
+            if point != "scan.iter" && point != "scan.enter" {
                 return;
             }
             let active = ACTIVE.with(|a| *a.borrow());
             if !active {
+                return;
+            }
+            if point == "scan.enter" {
+                // a new instance of the loop: its fuel starts over
+                COUNTS.with(|c| {
+                    c.borrow_mut().insert(ctx.to_string(), 0);
+                });
                 return;
             }
             let n = COUNTS.with(|c| {
